@@ -408,6 +408,31 @@ def run(shard, ctx):
                               and b2.length == 0.75, {"meter": [n, repr(u)]}, [(3, 4), 0.75], [b2.meter, b2.length],
                               mechanism="meter-refuse-state")
                 ctx.case(("meter", n, repr(u)))
+        # bars at the edges of "length = count/unit": no room at all (count 0 or below, unit a power of two) and bars shorter
+        # than the thousandth of a whole note that `full` is read to
+        for m in [(0, 1), (0, 4), (0, 8), (-1, 4), (-3, 8), (1, 1024), (1, 2048), (3, 4096), (1, 2 ** 20)]:
+            st, b = ctx.call(Bar, "C", m)
+            if st != "ok":
+                continue        # (reported by the acceptance clause above)
+            w = {"meter": list(m)}
+            L = Fraction(m[0], m[1])
+            ctx.check("full: reported exactly when non-empty and the remaining length is zero (within 1/1000)", b.is_full() is False, w,
+                      False, b.is_full(), mechanism="full:empty-bar")
+            before = snapshot(b)
+            for v in (4, 1, 128, 1024 * 1024 * 4):
+                fits = Fraction(1, v) <= L
+                st, r = ctx.call(b.place_notes, "C", v)
+                ctx.check("accept: accepted exactly when the exact total does not exceed the bar length", st == "ok" and bool(r) == fits,
+                          dict(w, value=v), fits, repr(r), mechanism="accept:%s" % ("refused-but-fits" if fits else "accepted-but-overflows"),
+                          shape={"exact_fill": False})
+                if st == "ok" and not r:
+                    ctx.check("accept: a refused placement changes nothing", snapshot(b) == before, dict(w, value=v), before, snapshot(b),
+                              mechanism="refused-changed")
+                    ctx.check("full: reported exactly when non-empty and the remaining length is zero (within 1/1000)", b.is_full() is False,
+                              dict(w, after_refused=v), False, b.is_full(), mechanism="full:empty-bar")
+                elif st == "ok":
+                    b.remove_last_entry()
+            ctx.case(("edge-meter", m))
         ctx.sample({"Bar('C',(6,8)).length": Bar("C", (6, 8)).length, "Bar('C',(4,3))": repr(ctx.call(Bar, "C", (4, 3))[1])})
     elif kind == "repotests":
         from rv import repotests
